@@ -505,6 +505,8 @@ func (e *Enc) encBuiltin(fr *Frame, st *State, b *ssa.Builtin, cc *ssa.CallCommo
 				t := "(" + f + " (select " + dom + " " + x.L[0].T + "))"
 				e.assert("(<= 0 " + t + ")")
 				e.assert("(= (" + f + " ((as const (Array " + ksort + " Bool)) false)) 0)")
+				// a (finite) map has no entries iff its key set is empty
+				e.assert("(= (= " + t + " 0) (= (select " + dom + " " + x.L[0].T + ") ((as const (Array " + ksort + " Bool)) false)))")
 				return &Val{T: rt, L: []Sc{{ite(eq(x.L[0].T, "0"), "0", t), "Int"}}}
 			}
 		case *types.Array:
